@@ -154,3 +154,92 @@ func vxH_C03_blockedWriter() {
 	snap.Close()
 	c.Close()
 }
+
+func init() { vxRegister("vxH_C03_shapes", vxH_C03_shapes) }
+
+// vxH_C03_shapes: a sequential history of batches of symbolic shape (only
+// top-level operations, only child-collection operations, only
+// grandchild-collection operations, or all of them), with a snapshot taken
+// and closed before every batch so that the collection's cached latest
+// snapshot is populated, and a symbolic choice of merger cycles in between.
+// Once ExecuteBatch has returned, the next Snapshot shows the whole batch
+// at every level it touched, and nothing else changes.
+func vxH_C03_shapes() {
+	steps := 2
+	if vxTier() == 1 {
+		steps = 3
+	}
+	ci, err := NewCollection(CollectionOptions{})
+	vxAssert("new-ok", err == nil)
+	c := ci.(*collection)
+	c.Start()
+	var want [3]int // last value written at top / child / grandchild; -1 = never
+	var have [3]bool
+	var wv [3]uint8
+	_ = want
+	read := func(tag string) {
+		snap, serr := c.Snapshot()
+		vxAssert("snapshot-ok", serr == nil)
+		var got [3][]byte
+		got[0], _ = snap.Get([]byte{'k'}, ReadOptions{})
+		child, _ := snap.ChildCollectionSnapshot("c")
+		if child != nil {
+			got[1], _ = child.Get([]byte{'k'}, ReadOptions{})
+			g, _ := child.ChildCollectionSnapshot("g")
+			if g != nil {
+				got[2], _ = g.Get([]byte{'k'}, ReadOptions{})
+				g.Close()
+			}
+			child.Close()
+		}
+		snap.Close()
+		for l := 0; l < 3; l++ {
+			if have[l] {
+				vxAssert(tag+"-returned-batch-is-visible", got[l] != nil && len(got[l]) == 1 && got[l][0] == wv[l])
+			} else {
+				vxAssert(tag+"-nothing-of-an-unwritten-level", got[l] == nil)
+			}
+		}
+	}
+	for s := 0; s < steps; s++ {
+		read("before")
+		shape := 1 + vxChoose(7) // bit 0 top, bit 1 child, bit 2 grandchild
+		b, berr := c.NewBatch(1, 8)
+		vxAssert("newbatch-ok", berr == nil)
+		var v [3]uint8
+		for l := 0; l < 3; l++ {
+			v[l] = vxU8()
+		}
+		if shape&1 != 0 {
+			b.Set([]byte{'k'}, []byte{v[0]})
+		}
+		if shape&6 != 0 {
+			cb, cerr := b.NewChildCollectionBatch("c", BatchOptions{TotalOps: 1, TotalKeyValBytes: 8})
+			vxAssert("childbatch-ok", cerr == nil)
+			if shape&2 != 0 {
+				cb.Set([]byte{'k'}, []byte{v[1]})
+			}
+			if shape&4 != 0 {
+				gb, gerr := cb.NewChildCollectionBatch("g", BatchOptions{TotalOps: 1, TotalKeyValBytes: 8})
+				vxAssert("grandchildbatch-ok", gerr == nil)
+				gb.Set([]byte{'k'}, []byte{v[2]})
+			}
+		}
+		vxAssert("executebatch-ok", c.ExecuteBatch(b, WriteOptions{}) == nil)
+		for l := 0; l < 3; l++ {
+			if shape&(1<<uint(l)) != 0 {
+				have[l] = true
+				wv[l] = v[l]
+			}
+		}
+		read("after")
+		switch vxChoose(3) {
+		case 1:
+			c.NotifyMerger("go", true)
+		case 2:
+			vxQuiesce()
+		}
+	}
+	read("final")
+	c.Close()
+}
